@@ -203,6 +203,50 @@ pub fn on_fresh_thread_with_stack<T: Send + 'static>(
     }
 }
 
+/// like `on_fresh_thread_with_stack`, but gives up waiting after `secs` seconds of wall time:
+/// `None` means the run thread is still busy (it cannot be stopped; the process must end soon).
+/// Only for runs whose work is bounded by a step budget, so that the bound is never what
+/// decides an ordinary run.
+pub fn on_fresh_thread_with_deadline<T: Send + 'static>(
+    hash_seed: u64,
+    stack_mb: usize,
+    secs: u64,
+    f: impl FnOnce() -> T + Send + 'static,
+) -> Option<ThreadOutcome<T>> {
+    let handle = std::thread::Builder::new()
+        .stack_size(stack_mb << 20)
+        .spawn(move || {
+            set_hash_seed(hash_seed);
+            let r = std::panic::catch_unwind(std::panic::AssertUnwindSafe(f));
+            match r {
+                Ok(v) => ThreadOutcome::Done(v),
+                Err(_) => ThreadOutcome::Panicked(take_panic().unwrap_or(PanicRecord {
+                    message: "<panic without record>".into(),
+                    file: "<unknown>".into(),
+                    line: 0,
+                    function: "<unknown>".into(),
+                })),
+            }
+        })
+        .expect("spawn run thread");
+    let t0 = std::time::Instant::now();
+    while !handle.is_finished() {
+        if t0.elapsed().as_secs() >= secs {
+            return None;
+        }
+        std::thread::sleep(std::time::Duration::from_millis(2));
+    }
+    Some(match handle.join() {
+        Ok(o) => o,
+        Err(_) => ThreadOutcome::Panicked(PanicRecord {
+            message: "<thread died>".into(),
+            file: "<unknown>".into(),
+            line: 0,
+            function: "<unknown>".into(),
+        }),
+    })
+}
+
 /// catch a panic raised by the system under test inside the current run thread
 pub fn guarded<T>(f: impl FnOnce() -> T) -> Result<T, PanicRecord> {
     match std::panic::catch_unwind(std::panic::AssertUnwindSafe(f)) {
